@@ -330,3 +330,9 @@ def run(ctx):
     import vec_rules
     vec_rules.bq_packer(ctx, 'R-BQ-PACK')
     vec_rules.bq_entry_points(ctx, 'R-BQ-PACK')
+    # "answers the recorded queries with the same neighbours and distances": the bytes only mean the same if the stored header
+    # fields and the quantised bits are *computed* as the reference computes them (norm = sqrt(v.v), bit = sign test) -- C11's
+    # formula shapes and C12's packer sign rule are re-evaluated here
+    from props import C11, C12
+    C11.r_forms(ctx)
+    C12.r_pack_bits(ctx)
